@@ -3,5 +3,5 @@ CONSTANTS
   MaxField = 1000000
   MaxNum = 30000
   Fuel = 40
-  Families = {"cond"}
+  Families = {"misc"}
 CHECK_DEADLOCK FALSE
